@@ -6,7 +6,7 @@ from typing import Dict, List, Optional, Set, Tuple
 
 from ..astutil import Origins, call_name, names_in
 from ..cfg import Conditions
-from ..loader import ClassInfo, FuncInfo, Program, dotted, short, walk_own
+from ..loader import ClassInfo, FuncInfo, Program, dotted, short, src, walk_own
 from ..report import BAD, INFO, OK, UNDET, Instance
 
 VALUE_CLASSES = [
@@ -540,6 +540,35 @@ def rule_valueobj(prog: Program, classes: Optional[List[str]] = None) -> List[In
                             out.append(Instance("R-VALUEOBJ", cid, BAD, f"pickled state {sorted(keys)} does not cover __eq__ fields {miss}", gs[1].where()))
                     if ok:
                         out.append(Instance("R-VALUEOBJ", cid, OK, f"pickle keys {sorted(keys)} written and consumed{' via __init__(**state)' if splat else ''}", gs[1].where()))
+
+        # REDUCEARGS: a custom __reduce__ re-runs the constructor; every constructor parameter that
+        # feeds a field __eq__ compares must be passed back
+        rd = _own_or_inherited(ci, "__reduce__")
+        if rd is not None:
+            cid = f"{ci.qual}#REDUCEARGS"
+            init = ci.find_method("__init__")
+            rets = [n for n in walk_own(rd[1].node) if isinstance(n, ast.Return) and n.value is not None]
+            if init is None or not rets:
+                out.append(Instance("R-VALUEOBJ", cid, UNDET, "__reduce__ without a resolvable constructor / return", rd[1].where()))
+            for r in rets if init is not None else []:
+                v = r.value
+                if not (isinstance(v, ast.Tuple) and len(v.elts) >= 2 and isinstance(v.elts[1], ast.Tuple) and not any(isinstance(e, ast.Starred) for e in v.elts[1].elts)):
+                    out.append(Instance("R-VALUEOBJ", cid, UNDET, "__reduce__ does not return (callable, (args...)) literally", rd[1].where(r)))
+                    continue
+                callee = v.elts[0]
+                same = (isinstance(callee, ast.Name) and callee.id in {c.name for c in ci.mro()}) or src(callee) in ("type(self)", "self.__class__")
+                if not same or len(v.elts) > 2:
+                    out.append(Instance("R-VALUEOBJ", cid, UNDET, f"__reduce__ rebuilds through {src(callee)} / carries extra state", rd[1].where(r)))
+                    continue
+                params = init.param_names()[1:]
+                passed = set(params[: len(v.elts[1].elts)])
+                need: Set[str] = set()
+                for f_ in (eq.conj if eq is not None else set()):
+                    need |= {p_ for p_ in roots.get(f_, set()) if p_ in params}
+                miss = sorted(need - passed)
+                out.append(Instance("R-VALUEOBJ", cid, BAD if miss else OK,
+                                    f"__reduce__ of {ci.name} passes {sorted(passed)} to the constructor but parameter(s) {miss} feed fields compared by __eq__: the unpickled copy falls back to their defaults and differs from the original" if miss
+                                    else f"__reduce__ passes every constructor parameter that feeds an __eq__ field ({sorted(need)})", rd[1].where(r)))
     return out
 
 
@@ -834,4 +863,80 @@ def _transformer_order(prog: Program) -> List[Instance]:
                                 "own CRS is the source, requested CRS the target" if ok else f"source/target swapped: `{short(n)}`", g2c.where(n)))
     if not found:
         out.append(Instance("R-CACHE", "geom:Geometry._to_crs#ORDER", UNDET, "transformer_to_crs call not found", g2c.where()))
+    return out
+
+
+# ---------------------------------------------------------------------------------------------
+# R-PICKLE: state that the default pickle protocol cannot carry; serialised-form variants
+# ---------------------------------------------------------------------------------------------
+def rule_pickle_state(prog: Program, modules: Optional[Set[str]] = None) -> List[Instance]:
+    """CLOSURE-STATE: a class pickled through the default protocol (no __getstate__/__reduce__) must
+    not store a lambda or a function defined inside a method in an instance attribute: pickle
+    refuses local objects, so every holder of such an instance becomes unpicklable (F19).
+
+    GEOJSON-VARIANTS: Geometry is pickled as its GeoJSON mapping and rebuilt through __init__; a
+    GeoJSON geometry object carries either "coordinates" or (GeometryCollection) "geometries", so a
+    reader on the rebuild path that requires "coordinates" must also handle "geometries" (F20)."""
+    out: List[Instance] = []
+    for mname, mi in sorted(prog.modules.items()):
+        if modules is not None and mname not in modules:
+            continue
+        for ci in mi.classes.values():
+            custom = any(_own_or_inherited(ci, m) is not None for m in ("__getstate__", "__reduce__", "__reduce_ex__"))
+            bad: List[Tuple[str, ast.AST, FuncInfo]] = []
+            nstores = 0
+            for fn in ci.methods.values():
+                local_defs = {n.name for n in ast.walk(fn.node) if isinstance(n, (ast.FunctionDef, ast.AsyncFunctionDef)) and n is not fn.node}
+                selfname = fn.param_names()[0] if fn.param_names() else "self"
+                for n in ast.walk(fn.node):
+                    tgt_val: List[Tuple[ast.AST, ast.AST]] = []
+                    if isinstance(n, ast.Assign):
+                        tgt_val = [(t, n.value) for t in n.targets]
+                    elif isinstance(n, ast.AnnAssign) and n.value is not None:
+                        tgt_val = [(n.target, n.value)]
+                    for t, v in tgt_val:
+                        if not (isinstance(t, ast.Attribute) and isinstance(t.value, ast.Name) and t.value.id == selfname):
+                            continue
+                        nstores += 1
+                        vals = [v] + ([v.body, v.orelse] if isinstance(v, ast.IfExp) else [])
+                        for x in vals:
+                            if isinstance(x, ast.Lambda) or (isinstance(x, ast.Name) and x.id in local_defs):
+                                bad.append((t.attr, n, fn))
+                            elif isinstance(x, ast.Call) and call_name(x) == "partial" and x.args and (isinstance(x.args[0], ast.Lambda) or (isinstance(x.args[0], ast.Name) and x.args[0].id in local_defs)):
+                                bad.append((t.attr, n, fn))
+            if nstores == 0:
+                continue
+            cid = f"{ci.qual}#CLOSURE-STATE"
+            if bad and not custom:
+                for attr, n, fn in bad:
+                    out.append(Instance("R-PICKLE", f"{cid}:{attr}", BAD,
+                                        f"{ci.name}.{attr} holds a function local to {fn.name}(); the class has no __getstate__/__reduce__, so pickling any object that holds a {ci.name} fails with \"Can't pickle local object\"", fn.where(n)))
+            else:
+                out.append(Instance("R-PICKLE", cid, OK, f"{ci.name}: {nstores} instance-attribute stores, none holds a local function" + (" (custom pickle protocol)" if custom else ""), f"{ci.mod.path}:{ci.node.lineno}"))
+    # GEOJSON-VARIANTS
+    try:
+        init = prog.func("geom:Geometry.__init__")
+    except Exception:  # anchor check happens in the property function
+        init = None
+    if init is not None and (modules is None or "geom" in modules):
+        seen = prog.reachable([init])
+        n_readers = 0
+        for fi in seen:
+            if fi.mod.name != "geom":
+                continue
+            req = []
+            for n in walk_own(fi.node):
+                if isinstance(n, ast.Compare) and isinstance(n.left, ast.Constant) and n.left.value == "coordinates" and any(isinstance(o, ast.In) for o in n.ops):
+                    req.append(n)
+                if isinstance(n, ast.Subscript) and isinstance(n.slice, ast.Constant) and n.slice.value == "coordinates" and isinstance(n.ctx, ast.Load):
+                    req.append(n)
+            if not req:
+                continue
+            n_readers += 1
+            alt = any(isinstance(n, ast.Constant) and n.value == "geometries" for n in walk_own(fi.node))
+            out.append(Instance("R-PICKLE", f"{fi.qual}#GEOJSON-VARIANTS", OK if alt else BAD,
+                                "GeoJSON reader on the Geometry rebuild path handles both `coordinates` and `geometries` (GeometryCollection) members" if alt else
+                                f"{fi.qual} is on the path Geometry.__setstate__ -> __init__ and requires a `coordinates` member: a Geometry holding a GeometryCollection (GeoJSON member `geometries`) cannot be unpickled or deep-copied", fi.where(req[0])))
+        if n_readers == 0:
+            out.append(Instance("R-PICKLE", "geom:Geometry.__init__#GEOJSON-VARIANTS", INFO, "no reader on the rebuild path names GeoJSON members explicitly", init.where()))
     return out
